@@ -6,5 +6,12 @@ func init() {
 		{Pkg: ".../internal/semver", Func: "IsValid"},
 		{Pkg: "golang.org/x/mod/semver", Func: "Compare", Oracle: true},
 		{Pkg: ".../internal/semver", Func: "ComparePluginVersion"},
+		{Pkg: ".../plugin", Func: "validatePluginName"},
+		{Pkg: ".../plugin", Func: "parsePluginName"},
+		{Pkg: ".../plugin", Func: "binName"},
+		{Pkg: ".../internal/slices", Func: "Contains"},
+		{Pkg: ".../plugin", Func: "validate", NonNil: true},
+		{Pkg: ".../plugin", Func: "run", Oracle: true},
+		{Pkg: ".../plugin", Func: "(*CLIPlugin).GetMetadata"},
 	})
 }
